@@ -67,6 +67,8 @@ TARGETS = [
     ('cardutil/iso8583.py', '_field_to_iso8583', {}, 'bytes',
      {'params': [('bit_config', 'cfg'), ('field_value', 'sb'), ('encoding', 'codec')],
       'extern': {'_pytype_to_string': ([('field_data', 'sb'), ('bit_config', 'cfg')], 'sb', True)}}),
+    # the typed conversion on decode: text -> int / Decimal / datetime by the configured type (the result is a sum type)
+    ('cardutil/iso8583.py', '_string_to_pytype', {'field_data': 'str', 'bit_config': 'cfg'}, 'pyval'),
     # the FRAMING of one element on decode: the statements of _iso8583_to_field up to `field_processor = ...` (declared
     # length, refusals, the slice) returning the element's bytes and the message increment; the codec's decoder is a
     # parameter
@@ -124,6 +126,12 @@ def lean_type(t):
         return '(Text → Outcome Bytes)'
     if t == 'decoder':
         return '(Bytes → Outcome Text)'
+    if t == 'dec':
+        return 'Py.Dec'
+    if t == 'dt':
+        return 'Py.DateTime'
+    if t == 'pyval':
+        return 'Rt.PyVal'
     if isinstance(t, tuple) and t[0] == 'list':
         return f'(List {lean_type(t[1])})'
     if isinstance(t, tuple) and t[0] == 'tuple':
@@ -207,6 +215,8 @@ class Translator:
             return f'[{code}]'
         if typ == 'asciibytes' and want == 'bytes':
             return code
+        if want == 'pyval' and typ in ('str', 'int', 'dec', 'dt'):
+            return f'(Rt.PyVal.{typ} {code})'
         raise Untranslatable(f'cannot use {typ} as {want}')
 
     def const_int(self, node):
@@ -396,6 +406,12 @@ class Translator:
                 raise Untranslatable('chained comparison')
             lc, lt = self.expr(node.left, env)
             rc, rt = self.expr(node.comparators[0], env)
+            if isinstance(node.ops[0], (ast.In, ast.NotIn)) and isinstance(node.comparators[0], (ast.Tuple, ast.List)) \
+                    and all(isinstance(e, ast.Constant) and isinstance(e.value, str) for e in node.comparators[0].elts):
+                # x in ("int", "long"): membership in a literal tuple of strings
+                items = '[' + ', '.join(lean_lit_seq(ord(c) for c in e.value) for e in node.comparators[0].elts) + ']'
+                inner = f'(List.contains {items} {self.coerce(lc, lt, "str")})'
+                return inner if isinstance(node.ops[0], ast.In) else f'(!{inner})'
             if isinstance(node.ops[0], (ast.In, ast.NotIn)):
                 if not (isinstance(rt, tuple) and rt[0] == 'list'):
                     raise Untranslatable('`in` on something that is not a list')
@@ -469,18 +485,41 @@ class Translator:
         v, t = self.hoist(f'(Rt.getItem {vc} {ic})', elem_type(vt))
         return v, t
 
-    CFG_FIELDS = {'field_type': 'str', 'field_length': 'int'}
+    CFG_FIELDS = {'field_type': 'str', 'field_length': 'int', 'field_python_type': 'str'}
+    CFG_OPTIONAL = {'field_date_format': 'str'}
 
-    def cfg_field(self, code, key):
-        if isinstance(key, ast.Constant) and key.value in self.CFG_FIELDS:
+    def cfg_field(self, code, key, default=None):
+        if isinstance(key, ast.Constant) and key.value in self.CFG_FIELDS and default is None:
             return f'({code}).{key.value}', self.CFG_FIELDS[key.value]
-        raise Untranslatable('configuration entry other than field_type / field_length')
+        if isinstance(key, ast.Constant) and key.value in self.CFG_OPTIONAL and isinstance(default, ast.Constant) \
+                and isinstance(default.value, str):
+            d = lean_lit_seq(ord(c) for c in default.value)
+            return f'(Option.getD ({code}).{key.value} {d})', self.CFG_OPTIONAL[key.value]
+        raise Untranslatable('configuration entry the translator does not know')
 
     def call(self, node, env):
         f = node.func
-        if isinstance(f, ast.Attribute) and f.attr == 'get' and len(node.args) == 1 and not node.keywords \
+        if isinstance(f, ast.Attribute) and f.attr == 'get' and len(node.args) in (1, 2) and not node.keywords \
                 and isinstance(f.value, ast.Name) and env.get(f.value.id, (None, None))[1] == 'cfg':
-            return self.cfg_field(env[f.value.id][0], node.args[0])
+            return self.cfg_field(env[f.value.id][0], node.args[0], node.args[1] if len(node.args) == 2 else None)
+        if isinstance(f, ast.Attribute) and f.attr == 'Decimal' and isinstance(f.value, ast.Name) and f.value.id == 'decimal' \
+                and len(node.args) == 1 and not node.keywords:
+            c, t = self.expr(node.args[0], env)
+            if t == 'str':
+                return self.hoist(f'(Rt.decimalOfStr Gen.intClasses {c})', 'dec')
+            if t == 'int':
+                return f'(Py.decOfInt {c})', 'dec'
+            raise Untranslatable(f'Decimal() of {t}')
+        if isinstance(f, ast.Attribute) and f.attr == 'strptime' and isinstance(f.value, ast.Attribute) \
+                and f.value.attr == 'datetime' and len(node.args) == 2 and not node.keywords:
+            c, t = self.expr(node.args[0], env)
+            fc, ft = self.expr(node.args[1], env)
+            if ft != 'str':
+                raise Untranslatable('strptime format that is not text')
+            if t != 'str':
+                # strptime() argument 1 must be str: a TypeError in Python
+                return self.hoist('(Outcome.escape ExcKind.typeError : Outcome Py.DateTime)', 'dt')
+            return self.hoist(f'(Rt.strptimeText Gen.intClasses {c} {fc})', 'dt')
         if isinstance(f, ast.Attribute) and f.attr == 'encode' and len(node.args) == 1 and not node.keywords \
                 and isinstance(node.args[0], ast.Name) and env.get(node.args[0].id, (None, None))[1] == 'codec':
             c, t = self.expr(f.value, env)
